@@ -34,7 +34,7 @@ RULES_DOC.update({
     "R7": "xstream join / finalize sequences; TERMINATED stored after the root loop",
     "R8": "check_events: REQ_JOIN -> sched_finish, REQ_CANCEL -> sched_exit",
 })
-VARIANTS = ["no_ext_thread", "active_wait"]
+VARIANTS = ["no_ext_thread", "active_wait", "tool_interface"]
 Y = "src/ythread.c"
 SUSPEND_CBS = ["ABTI_ythread_callback_suspend", "ABTI_ythread_callback_resume_suspend_to",
                "ABTI_ythread_callback_suspend_unlock", "ABTI_ythread_callback_suspend_join",
